@@ -401,7 +401,9 @@ class Polygon(Shape2D):
         c_x = np.sum((verts[:, 0] + verts_shifted[:, 0]) * delta_term)
         c_y = np.sum((verts[:, 1] + verts_shifted[:, 1]) * delta_term)
 
-        in_plane_centroid = np.array([c_x, c_y, 0]) / (6 * self.area)
+        # The edge sums change sign with the orientation of the vertices about the
+        # normal, exactly like the signed area, so the quotient is orientation free.
+        in_plane_centroid = np.array([c_x, c_y, 0]) / (6 * self.signed_area)
 
         # We've rotated into the plane, so the z position of all vertices
         # should be equal. We take the average to improve numerical stablity.
